@@ -558,6 +558,7 @@ Record hcase := mkHCase {
   hc_deliv : list inst;     (* delivered by the implementation, in order *)
   hc_term : oterm;          (* its terminal result *)
   hc_guard : bool;          (* inside the guards of machine_eq_spec / edi_eq_spec_nested *)
+  hc_wf : bool;             (* well-formed, at most one target (the guard without no_root_repeat) *)
 }.
 
 (* the number of loop iterations that always suffices (Proofs/HierTerm.v, hier_terminates):
